@@ -207,6 +207,25 @@ func SelfTest() (failed []string, n int) {
 		expect(st4["R-ALLOCWRAP|bitmap.BadAllocWrap"] == Violated, "R-ALLOCWRAP: make(.., to-from) on unsigned operands without a guard is not reported")
 		expect(st4["R-ALLOCWRAP|bitmap.GoodAllocGuarded"] == Discharged, "R-ALLOCWRAP: false alarm on a guarded unsigned difference")
 	}
+	{
+		r5 := NewReport("SELF", "quick", "other")
+		ReportCountWidth(w, r5, "bitmap.BadCountNarrow", "bitmap.GoodCountBounded", "bitmap.GoodCountWide")
+		ReportMul32(w, r5, "bitmap.BadMul32", "bitmap.GoodMul64", "bitmap.GoodMulBit")
+		ReportNegBound(w, r5, "iofx.BadCutAtNul", "iofx.GoodCutAtNul", "iofx.GoodCutAfter")
+		st5 := map[string]Status{}
+		for _, o := range r5.Obs {
+			st5[o.Key] = o.st
+		}
+		expect(st5["R-COUNTWIDTH|bitmap.BadCountNarrow"] == Violated, "R-COUNTWIDTH: a 16-bit histogram cell incremented per input element is not reported")
+		expect(st5["R-COUNTWIDTH|bitmap.GoodCountBounded"] == Discharged, "R-COUNTWIDTH: false alarm on a narrow counter in a loop of 8 iterations")
+		expect(st5["R-COUNTWIDTH|bitmap.GoodCountWide"] == Discharged, "R-COUNTWIDTH: false alarm on a 32-bit histogram")
+		expect(st5["R-MUL32|bitmap.BadMul32"] == Violated, "R-MUL32: an int32 product of two run-time values is not reported")
+		expect(st5["R-MUL32|bitmap.GoodMul64"] == Discharged, "R-MUL32: false alarm on a product widened to uint64")
+		expect(st5["R-MUL32|bitmap.GoodMulBit"] == Discharged, "R-MUL32: false alarm on a single-bit factor")
+		expect(st5["R-NEGBOUND|iofx.BadCutAtNul"] == Violated, "R-NEGBOUND: v[:bytes.IndexByte(v,0)] without a guard is not reported")
+		expect(st5["R-NEGBOUND|iofx.GoodCutAtNul"] == Discharged, "R-NEGBOUND: false alarm on a guarded search result")
+		expect(st5["R-NEGBOUND|iofx.GoodCutAfter"] == Discharged, "R-NEGBOUND: false alarm on result+1")
+	}
 	// shared machinery the no-false-alarm discipline rests on
 	guardedIdx := func(name string) bool {
 		f := fn("bitmap", name)
